@@ -250,7 +250,7 @@ def history(draw: Any, cfg: GenCfg = GenCfg()) -> Dict[str, Any]:
             op = draw(st.sampled_from([o for o in cfg.ops if cfg.intra or o != "intra"]))
         price = draw(price_units(palette=palette, wide=cfg.wide))
         uid = f"u{len(state.rows) + 1}"
-        if cfg.shared_uid_prob and state.rows and draw(st.floats(0, 1)) < cfg.shared_uid_prob:
+        if cfg.shared_uid_prob and state.rows and draw(st.integers(0, 999)) < int(cfg.shared_uid_prob * 1000):
             uid = state.rows[-1]["uid"]
         if op == "in":
             acc = draw(st.sampled_from(accounts))
@@ -377,7 +377,7 @@ def history(draw: Any, cfg: GenCfg = GenCfg()) -> Dict[str, Any]:
             state.debit(acc, take)
             state.credit_transfer(to_acc, take - fee_units)
 
-    if cfg.bulk_prob and draw(st.floats(0, 1)) < cfg.bulk_prob:
+    if cfg.bulk_prob and draw(st.integers(0, 999)) < int(cfg.bulk_prob * 1000):
         _bulk_tail(draw, cfg, state, accounts)
 
     return {
